@@ -59,6 +59,22 @@ def strip_comments(lines):
     return [l for l in lines if l[0] != "C"]
 
 
+def written(r):
+    """the text handed to the assembler, listing comments and cycle counts aside"""
+    out = []
+    for l in unhx(r["out"]).split("\n"):
+        if l.startswith(";"):
+            continue
+        out.append(re.sub(r"\t; [0-9/]+$", "", l).rstrip(" "))
+    return out
+
+
+def long_names(src):
+    """the same program with identifiers of 26+ characters (an operand such as `w0_...+4,Y` is wider than the
+    column the listing pads operands to)"""
+    return re.sub(r"\b([vsawipf]\d)\b", r"\1_a_rather_long_identifier", src)
+
+
 def decls(r):
     return [(v["name"], v["type"], v["mem"], v["size"], json.dumps(v["def"])) for v in r["vars"]], [f["name"] for f in r["funcs"]]
 
@@ -118,6 +134,22 @@ def run(chk):
         # listing / warning options
         if base["status"] != "ok":
             continue
+        # the text written for the assembler (not only the instruction records): plain against listing, on the
+        # program as it is and with long identifiers
+        for wsrc in (src, long_names(src)):
+            for level in (0, 1):
+                wp, wl = h.compile(wsrc, level), h.compile(wsrc, level, flags=("ic",))
+                chk.count("written_text")
+                if wp["status"] != "ok" or wl["status"] != "ok":
+                    if wp["status"] != wl["status"]:
+                        chk.fail("option-changes-acceptance", "flags ('ic',): %s, plain %s" % (wl["status"], wp["status"]), {"source": wsrc, "level": level})
+                    continue
+                a, b = written(wp), written(wl)
+                if level == 0 and a != b:
+                    d = [(x, y) for x, y in zip(a, b) if x != y][:3]
+                    chk.fail("listing-changes-written-text", "--insert_code changes the assembly text written at -O0: %s" % (d,),
+                             {"source": wsrc, "level": level, "differences": d})
+                    break
         for level in (0, 1):
             plain = base if level == 1 else h.compile(src, 0)
             for flags in (("ic",), ("Wall",), ("ic", "Wall")):
